@@ -461,6 +461,48 @@ func (w *World) newestOwn() (string, world.LC) {
 	return n, lc
 }
 
+// checkC11 (shadow mode, at idle): the application's DBIs hold exactly the live entries of the shadow DBIs, and the
+// last change the application made to a key is the version the shadow DBI holds for it.
+func (w *World) checkC11() {
+	if w.Cfg.Native {
+		return
+	}
+	dump := w.A.Env.RawDump()
+	app := world.PlainContent(dump, world.PickNative)
+	lc, err := world.HeaderLC(dump, world.PickShadow)
+	if err != nil {
+		w.viol("c11:shadow-dbi-malformed", err.Error())
+		return
+	}
+	at := "none"
+	if len(w.commitAt) > 0 {
+		at = w.commitAt[len(w.commitAt)-1]
+	}
+	live := map[string]map[string]string{}
+	for d, m := range lc {
+		live[d] = map[string]string{}
+		for k, v := range m {
+			if !v.Deleted {
+				live[d][k] = v.Val
+			}
+		}
+	}
+	for d := range app {
+		if _, ok := live[d]; !ok {
+			live[d] = map[string]string{}
+		}
+	}
+	for d := range live {
+		if _, ok := app[d]; !ok {
+			app[d] = map[string]string{}
+		}
+	}
+	if a, l := world.PlainString(app), world.PlainString(live); a != l {
+		w.viol(fmt.Sprintf("c11:commit@%s:application-dbis-differ-from-merged-state", at),
+			fmt.Sprintf("loop idle: application DBIs %s, live entries of the shadow DBIs %s (application commits at %v)", a, l, w.commitAt))
+	}
+}
+
 // checkC09: at idle, the newest own snapshot reflects every application commit.
 func (w *World) checkC09() {
 	if len(w.touched) == 0 {
@@ -676,6 +718,7 @@ func Run(cfg Cfg, ctx *explore.Ctx) Result {
 	s.WaitQuiescent()
 	if outcome == "idle" {
 		w.checkC09()
+		w.checkC11()
 	}
 	if s.Steps >= s.MaxSteps {
 		w.viol("loop-never-goes-idle", fmt.Sprintf("no %d consecutive idle iterations within %d steps; stores=%d loads=%d", cfg.IdleIters, s.Steps, w.stores, w.loads))
